@@ -59,8 +59,51 @@ PLAN = {
                           "(checked natively against the exact span incl. arbitrary key order); that a standard parser recovers dn/tr/ws from "
                           "the string is assumed (quote_plus alphabet) and checked natively with urllib.parse",
             "trusted": ["pyben round trip", "urllib.parse.quote_plus"]},
+    "C18": {"functions": [], "harness": True,
+            "level_text": "frames: every call site reachable from recheck / info / magnet / the command-line front end is classified from the "
+                          "real call graph as effect-free (files are opened with literal read modes only); create reaches the file system "
+                          "only through check_path_writable and MetaFile.write, whose effects are verified symbolically against their "
+                          "frames (probe leaves no trace and never deletes an existing file; write touches self.outfile only); rename is "
+                          "verified for all file-system states: refuses an existing target, moves the same bytes, changes nothing else",
+            "level_note": "call-graph frame checker is syntactic (dynamic dispatch by method name, callbacks and progress bars assumed effect-free); "
+                          "effect table of os / shutil / pyben assumed; POSIX rename semantics",
+            "trusted": ["effect table of externals (DESIGN 5.1)", "observer callbacks effect-free"]},
 }
 
 
+CMD_STOPS = ["torrentfile.commands.create", "torrentfile.commands.edit", "torrentfile.commands.rebuild", "torrentfile.commands.rename",
+             "torrentfile.commands.info", "torrentfile.commands.recheck", "torrentfile.commands.get_magnet",
+             "torrentfile.interactive.select_action"]
+FRAMES = {
+    "C18": [
+        {"name": "recheck is read-only", "roots": ["torrentfile.commands.recheck"], "stops": []},
+        {"name": "info is read-only", "roots": ["torrentfile.commands.info"], "stops": []},
+        {"name": "magnet is read-only", "roots": ["torrentfile.commands.get_magnet", "torrentfile.commands.magnet"], "stops": []},
+        {"name": "create writes through check_path_writable / MetaFile.write only", "roots": ["torrentfile.commands.create"],
+         "stops": ["torrentfile.utils.check_path_writable", "torrentfile.torrent.MetaFile.write"]},
+        {"name": "command-line front end (all spellings: -q, -v, aliases) adds no file-system effect before dispatch",
+         "roots": ["torrentfile.cli.execute", "torrentfile.cli.main"], "stops": CMD_STOPS},
+    ],
+    "C14": [
+        {"name": "rebuild touches the file system through copypath only", "roots": ["torrentfile.commands.rebuild"],
+         "stops": ["torrentfile.utils.copypath"]},
+    ],
+}
+FRAMES["C19"] = FRAMES["C14"]
+
+
 def run_lemmas(prop, tier):
-    return []
+    """code-independent lemmas and call-graph frame obligations of a property"""
+    out = []
+    if prop in FRAMES:
+        from pyvc.source import Repo
+        from pyvc import frames
+        repo = Repo()
+        for fr in FRAMES[prop]:
+            obs, assumptions, visited = frames.check_frame(repo, fr["roots"], fr["stops"])
+            for o in obs:
+                o["name"] = f"[{fr['name']}] {o['name']}"
+                o["assumptions"] = assumptions
+                o["functions"] = visited
+            out.extend(obs)
+    return out
